@@ -69,6 +69,14 @@ using namespace Constants;
 #include "fc_funcs.inc"     /* REAL featurechecker.cpp functions (callee walkers -> contract)    */
 
 static type_t mk(int k, unsigned w) { type_t t = type_t::verif_any_type(); t.base = (kind_t)k; t.wrap = w; return t; }
+/* a type that may be an array (depth <= 1): if k == ARRAY its element type is (ek, ew), kept in pool slot `slot` */
+static type_t mk_arr(int k, unsigned w, int ek, unsigned ew, int slot)
+{
+    type_t t = mk(k, w);
+    verif_tpool[slot] = mk(ek, ew);
+    t.sid2 = slot;
+    return t;
+}
 
 /* root = node 0 with up to 4 children (nodes 1..4); child i carries the ghost bits g[i] */
 static void build(int kind, int tk, unsigned tw, int nsub, const unsigned* g)
@@ -139,9 +147,9 @@ extern "C" void w_c17_location(int empty, int kind, int nsub, unsigned g0, unsig
     fc.visitLocation(loc);
     FLAGS_OUT(fc);
 }
-extern "C" void w_c17_variable(int tk, unsigned tw, int init_empty, int init_fp, int sym, int sto, int con, int* is_clock_, int* osym, int* osto, int* ocon)
+extern "C" void w_c17_variable(int tk, unsigned tw, int ek, unsigned ew, int init_empty, int init_fp, int sym, int sto, int con, int* is_clock_, int* osym, int* osto, int* ocon)
 {
-    verif_syms[0].type = mk(tk, tw);
+    verif_syms[0].type = mk_arr(tk, tw, ek, ew, 0);
     verif_nodes[0].nsub = 0; verif_nodes[0].g_a = init_fp != 0;
     variable_t v; v.uid = symbol_t(0); if (!init_empty) v.init = expression_t(0);
     *is_clock_ = verif_syms[0].type.is_clock();
@@ -149,9 +157,9 @@ extern "C" void w_c17_variable(int tk, unsigned tw, int init_empty, int init_fp,
     fc.visitVariable(v);
     FLAGS_OUT(fc);
 }
-extern "C" void w_c17_frame(int n, int k0, unsigned w0, int k1, unsigned w1, int k2, unsigned w2, int sym, int sto, int con, int* osym, int* osto, int* ocon)
+extern "C" void w_c17_frame(int n, int k0, unsigned w0, int ek0, unsigned ew0, int k1, unsigned w1, int k2, unsigned w2, int sym, int sto, int con, int* osym, int* osto, int* ocon)
 {
-    verif_syms[0].type = mk(k0, w0); verif_syms[1].type = mk(k1, w1); verif_syms[2].type = mk(k2, w2);
+    verif_syms[0].type = mk_arr(k0, w0, ek0, ew0, 0); verif_syms[1].type = mk(k1, w1); verif_syms[2].type = mk(k2, w2);
     frame_t f; f.n = n; f.ids[0] = 0; f.ids[1] = 1; f.ids[2] = 2; f.ids[3] = 0;
     FeatureChecker fc; FLAGS_IN(fc);
     fc.visitFrame(f);
